@@ -45,7 +45,7 @@ SITE_FN = "Dataset.__eq__ false negative"
 SITE_FP = "Dataset.__eq__ false positive"
 SITE_NAMES = "Dataset.__eq__ via str(ranking): names with blanks or delimiters"
 
-EXOTIC = ["a", "b", "ab", "a b", "a,b", "a},{b", " a"]
+EXOTIC = ["a", "b", "ab", "a b", "a,b", "a},{b", "a  b"]
 
 
 # ---------------------------------------------------------------------------------------------------------------------
